@@ -47,6 +47,8 @@ const mStale = "c18.staleWorkerReplaysAfterLostLease"
 //	open          open a GetPart reader on part Id (Tx: inside a harness-held read transaction)
 //	read / close  on reader R (index modulo the number of readers opened so far)
 //	drain         leases expire and every worker that is not in the middle of an entry runs maybeProcessOutboxEntries
+//	listflush     GetPartIds through worker 1-W's instance while worker W (if idle) runs maybeProcessOutboxEntries
+//	              at the moment the inner store has produced its listing
 type Step struct {
 	Op     string `json:"op"`
 	Id     int    `json:"id,omitempty"`
@@ -124,6 +126,7 @@ type harness struct {
 	c       Case
 	db      database.Database
 	inner   partstore.PartStore
+	ip      *interposer
 	repo    partOutboxEntry.Repository
 	workers [2]*worker
 	txFree  bool
@@ -137,6 +140,28 @@ type harness struct {
 }
 
 var errRollback = errors.New("harness: roll back")
+
+// interposer wraps the inner store of both outbox instances: the harness can run
+// something (a worker pass) at the moment the inner store has produced its part
+// listing, i.e. in the middle of an outbox GetPartIds (which merges the outbox
+// table and the inner listing non-atomically).
+type interposer struct {
+	partstore.PartStore
+	afterList func()
+}
+
+func (i *interposer) Capabilities() partstore.Capabilities {
+	return partstore.CapabilitiesOf(i.PartStore)
+}
+
+func (i *interposer) GetPartIds(ctx context.Context, tx database.Tx) ([]partstore.PartId, error) {
+	ids, err := i.PartStore.GetPartIds(ctx, tx)
+	if f := i.afterList; f != nil {
+		i.afterList = nil
+		f()
+	}
+	return ids, err
+}
 
 func (h *harness) write(commit bool, fn func(ctx context.Context, tx database.Tx) error) error {
 	err := database.WithTx(context.Background(), h.db, &sql.TxOptions{}, func(ctx context.Context, tx database.Tx) error {
@@ -295,11 +320,16 @@ func (h *harness) checkAPI(when string) bool {
 			}
 		}
 	}
-	// GetPartIds
+	return h.checkList(when, h.workers[0].store)
+}
+
+// checkList: GetPartIds through store = ids whose latest committed op is a put.
+func (h *harness) checkList(when string, store partstore.PartStore) bool {
+	o := h.o
 	var ids []partstore.PartId
 	err := database.WithTx(context.Background(), h.db, &sql.TxOptions{ReadOnly: true}, func(ctx context.Context, tx database.Tx) error {
 		var err error
-		ids, err = h.workers[0].store.GetPartIds(ctx, tx)
+		ids, err = store.GetPartIds(ctx, tx)
 		return err
 	})
 	o.Sub++
@@ -531,7 +561,8 @@ func runCase(env *ev.Env, c Case) (o ev.Outcome) {
 		o.Failf("harness: repository: %v", err)
 		return
 	}
-	h := &harness{o: &o, env: env, c: c, db: db, inner: inner, repo: repo, txFree: c.Inner == "fs",
+	ip := &interposer{PartStore: inner}
+	h := &harness{o: &o, env: env, c: c, db: db, inner: ip, ip: ip, repo: repo, txFree: c.Inner == "fs",
 		present: make([]bool, nid), staleOn: make([]bool, nid)}
 	for i, n := range c.Lens {
 		h.bodies = append(h.bodies, content(i, n))
@@ -551,6 +582,7 @@ func runCase(env *ev.Env, c Case) (o ev.Outcome) {
 	}()
 	ctx := context.Background()
 	readerMidStreamAtFinalize := false
+	listDuringFlush := 0
 
 	checkReader := func(r *reader, when string) bool {
 		o.Sub++
@@ -744,6 +776,26 @@ func runCase(env *ev.Env, c Case) (o ev.Outcome) {
 			if !h.drain(when) {
 				return
 			}
+		case "listflush":
+			// GetPartIds through one instance while the other runs a real worker pass right after
+			// the inner store produced its listing (flush concurrent with a listing)
+			w := h.workers[s.W%2]
+			if w.entry != nil {
+				continue
+			}
+			fired := false
+			h.ip.afterList = func() {
+				fired = true
+				w.w.ProcessAvailable(ctx)
+			}
+			ok := h.checkList(when, h.workers[1-s.W%2].store)
+			h.ip.afterList = nil
+			if !ok {
+				return
+			}
+			if fired {
+				listDuringFlush++
+			}
 		default:
 			o.Discard = true
 			return
@@ -795,6 +847,9 @@ func runCase(env *ev.Env, c Case) (o ev.Outcome) {
 	}
 	if h.leaseLostMid {
 		o.Class("lease-lost-mid-entry")
+	}
+	if listDuringFlush > 0 {
+		o.Class("listing-concurrent-with-worker-pass")
 	}
 	if readerMidStreamAtFinalize {
 		o.Class("reader-mid-stream-at-finalize")
@@ -866,6 +921,13 @@ func genCase(t *rapid.T, env *ev.Env) Case {
 			}
 			add(1, Step{Op: "drain"})
 		}
+		if q > 0 {
+			for w := 0; w < 2; w++ {
+				if !hold[w] && (owner == -1 || expired) {
+					add(2, Step{Op: "listflush", W: w})
+				}
+			}
+		}
 		if pendingPut {
 			add(3, Step{Op: "open"})
 		} else {
@@ -923,6 +985,8 @@ func genCase(t *rapid.T, env *ev.Env) Case {
 			if !hold[0] || !hold[1] {
 				q, owner, pendingPut = 0, -1, false
 			}
+		case "listflush":
+			q, owner, pendingPut = 0, -1, false
 		case "open":
 			s.Id = rapid.IntRange(0, nid-1).Draw(t, "id")
 			s.Tx = rapid.Bool().Draw(t, "tx")
